@@ -377,6 +377,9 @@ pub fn leaf_alphabet() -> Vec<Value> {
     ] {
         v.push(json!(s));
     }
+    // a few KB in one string, and a long run of a character that needs \u escaping in disclosures
+    v.push(json!("x".repeat(4096)));
+    v.push(json!("\u{e9}".repeat(700)));
     v
 }
 
